@@ -420,7 +420,12 @@ fn check_run(sc: &Scenario, prior: &[u8], out_idx: &Option<Idx>, r: &RunResult, 
         // C02 / C03: success => output == source (regular file: resized to the source length afterwards)
         let n = sc.source.len();
         if r.file.len() < n || r.file[..n] != sc.source[..] {
-            st.violation(if out_idx.is_some() { "C03" } else { "C02" }, "clone reported success but the output differs from the source", line);
+            if out_idx.is_some() {
+                st.violation("C03", "clone reported success but the output differs from the source", line);
+            }
+            if out_idx.is_none() || !sc.seeds.is_empty() {
+                st.violation("C02", "clone reported success but the output differs from the source", line);
+            }
         }
         if r.idx != "-" {
             st.violation("C02", "chunks left in the clone index after feeding every missing chunk", line);
